@@ -315,6 +315,26 @@ class Stmts(FnCtx):
         hi = []
         if init:
             hi += self.st(init)
+        rv = kids(rng)[0]
+        rt = self.lw.te.parse(qt(rv))
+        if rt.is_ref() and rt.to.kind == 'array' and rt.to.n:
+            # range-for over a built-in array of known bound: emitted as an index loop (same iteration space as the
+            # __begin/__end pointer loop clang desugars it to)
+            bv = kids(beg)[0]
+            idx = '__idx' + ''.join(ch for ch in bv.get('name', '') if ch.isdigit())
+            hi += self.st(rng)
+            hi.append('unsigned long %s = 0;' % idx)
+            old = dict(self.captures)
+            self.captures[bv['id']] = '(&(*%s)[0] + %s)' % (rv['name'], idx)
+            contract = self.loop_contract()
+            self.push('loop')
+            bodyl = self.st(var)
+            bodyl += self.st(body)
+            bodyl += self.pop()
+            self.captures = old
+            out = hi + ['for (; %s != %sUL; ++%s)' % (idx, rt.to.n, idx)] + contract + ['{'] + ind(bodyl) + ['}']
+            d = self.pop()
+            return ['{'] + ind(out + d) + ['}']
         hi += self.st(rng) + self.st(beg) + self.st(end)
         out = self.loop(hi, c, inc, body, extra_first=lambda: self.st(var))
         d = self.pop()
